@@ -562,6 +562,11 @@ def run_cat_test(test, cf_world, obs_events, seed):
     return ce.MLL_magnitude_test(fc, obs, full_calculation=(test == 'MLLF'), seed=seed)
 
 
+def _held_view(res):
+    v = result_view(res)
+    return [v['obs'], v['quantile'], v['dist']]
+
+
 def execute(scn, ctx, collect_results=None):
     rng = SimRandom(initial_seed=scn.get('initial_rng', 0), budget=HARD_CAP)
     set_tz(scn.get('tz', 'UTC'))
@@ -625,6 +630,15 @@ def _execute(scn, ctx, rng, collect_results):
         c.region = fcs[k].region
         return c
     memo = {}           # (test, obs, seed, nsim, fc, factor) -> first result rendering (determinism oracle)
+    held = []           # (op index, test, result object, rendering when it was returned): the caller keeps its results
+
+    def check_held(now):
+        for oi0, t0, res0, ren0 in held:
+            if hexf(_held_view(res0)) != ren0:
+                ctx.violate(ctx.focus if ctx.focus in ('C05', 'C16') else 'C06', 'result_stability',
+                            '%s:result-held-by-caller-changed-by-later-call' % t0, {'op': oi0, 'changed_after_op': now})
+                return False
+        return True
     prev = 'start'      # abstract state of the shared generator as the next evaluation finds it
     last_state = ('start',)
     for oi, op in enumerate(scn['ops']):
@@ -742,6 +756,9 @@ def _execute(scn, ctx, rng, collect_results):
             # the global stream is in an unknown position now but that is legal history: continue
             continue
         v = result_view(r[1])
+        if not check_held(oi):
+            return
+        held.append((oi, test, r[1], hexf(_held_view(r[1]))))
         if collect_results is not None:
             collect_results.append((oi, test, r[1]))
         dist = v['dist']
